@@ -407,9 +407,13 @@ def floordiv(x, y, out=None, out_like=None, sizing='optimal', method='raw', **kw
         return real_part + 1j*imag_part
     
     def _floordiv_raw(x, y, n_frac):
-        n_bits = max(x.n_word + max(n_frac - x.n_frac, 0), y.n_word + max(n_frac - y.n_frac, 0)) + max(n_frac, 0)
+        # both raw values are aligned with integer factors only (a fractional power of 2 would turn them into floats)
+        x_shift, y_shift = n_frac - x.n_frac, n_frac - y.n_frac
+        common_shift = max(-x_shift, -y_shift, 0)
+        x_shift, y_shift = x_shift + common_shift, y_shift + common_shift
+        n_bits = max(x.n_word + x_shift, y.n_word + y_shift) + max(n_frac, 0)
         precision_cast = _raw_cast(x, y, n_bits, n_frac)
-        return ((precision_cast(x.val) * precision_cast(2**(n_frac - x.n_frac))) // (precision_cast(y.val) * precision_cast(2**(n_frac - y.n_frac)))) * precision_cast(2**n_frac)
+        return ((precision_cast(x.val) * precision_cast(2**x_shift)) // (precision_cast(y.val) * precision_cast(2**y_shift))) * precision_cast(2**n_frac)
 
     def _floordiv_raw_complex(x, y, n_frac):
         precision_cast = (lambda m: np.array(m, dtype=object)) if n_frac >= _n_word_max else (lambda m: m)
